@@ -189,6 +189,21 @@ fn one_case(ctx: &Ctx, case: u64, l: &mut Local) {
             }
         }
     }
+    // the same claims through an issuer that signs with another algorithm family (HS384 / HS512, P-384, RSA with
+    // PKCS#1 v1.5 or PSS, 2048-4096 bits): what is hidden and how (`_sd_alg` says sha-256) does not depend on it
+    if case % 16 == 13 {
+        let names: Vec<&str> = crate::keys::EXTRA_ALGS.iter().copied().chain(crate::keys::BIG_RSA.iter().copied()).collect();
+        let an = names[((case / 16) % names.len() as u64) as usize];
+        let mut issuer = sd_jwt_rs::SDJWTIssuer::new(crate::keys::extra_enc(an), Some(an.split('/').next().unwrap_or(an).to_string()));
+        l.evals += 1;
+        match pipeline::issue_with(&mut issuer, &s.u, &s.strat, cfg.holder, cfg.decoys, cfg.fmt) {
+            Err(f) => report_issue_fail(case, &format!("issuer signing with {an}"), f, l, &input),
+            Ok(iss) => {
+                l.count("issued.other-signing-algorithms");
+                check_issued(case, &s, &iss, l, &input);
+            }
+        }
+    }
 
     // an array with more than 2^16 elements: index paths name exactly the elements they spell
     if case % 30_000 == 1 {
